@@ -785,3 +785,44 @@ silent('c11-drop-check-str-ne', 'C11',
        [(POL, "            not self.conf.oslo_policy.enforce_new_defaults\n            and deprecated_rule.check_str != default.check_str\n            and", "            not self.conf.oslo_policy.enforce_new_defaults\n            and")])
 silent('c11-no-warnings', 'C11',
        [(POL, "            if not (\n                self.suppress_deprecation_warnings\n                or self.suppress_default_change_warnings\n            ):\n                warnings.warn(deprecated_msg)\n", "")])
+
+# ------------------------------------------------------------------ C12
+fire('c12-no-deepcopy', 'C12',
+     [(POL, "        self.registered_rules[default.name] = copy.deepcopy(default)", "        self.registered_rules[default.name] = default")], 'C12.COPY-IN')
+fire('c12-shallow-copy', 'C12',
+     [(POL, "        self.registered_rules[default.name] = copy.deepcopy(default)", "        self.registered_rules[default.name] = copy.copy(default)")], 'C12.COPY-IN')
+fire('c12-ruledefault-no-copy', 'C12',
+     [(POL, "        self._deprecated_rule = copy.deepcopy(deprecated_rule) or []", "        self._deprecated_rule = deprecated_rule or []")], 'C12.COPY-IN')
+fire('c12-add-check-in-handler', 'C12',
+     [(POL, "            return OrCheck([default.check, deprecated_rule.check])", "            return OrCheck([default.check]).add_check(deprecated_rule.check)")], 'C12.MUTATORS')
+fire('c12-grow-default-check', 'C12',
+     [(POL, "            return OrCheck([default.check, deprecated_rule.check])",
+       "            if isinstance(default.check, OrCheck):\n                default.check.rules.append(deprecated_rule.check)\n                return default.check\n            return OrCheck([default.check, deprecated_rule.check])")], 'C12')
+fire('c12-store-back', 'C12',
+     [(POL, "            return OrCheck([default.check, deprecated_rule.check])",
+       "            default._check = OrCheck([default.check, deprecated_rule.check])\n            return default.check")], 'C12.NO-WRITE')
+fire('c12-store-back-in-load', 'C12',
+     [(POL, "                if default.deprecated_rule:\n                    check = self._handle_deprecated_rule(default)\n",
+       "                if default.deprecated_rule:\n                    check = self._handle_deprecated_rule(default)\n                    default._check = check\n")], 'C12.NO-WRITE')
+fire('c12-module-cache', 'C12',
+     [(POL, "    def _handle_deprecated_rule(self, default):\n", "    def _handle_deprecated_rule(self, default):\n        _MERGED.setdefault(default.name, default)\n"),
+      (POL, "LOG = logging.getLogger(__name__)\n", "LOG = logging.getLogger(__name__)\n_MERGED = {}\n")], 'C12')
+fire('c12-mutate-scope-types', 'C12',
+     [(POL, "                registered_rule = self.registered_rules.get(rule)\n", "                registered_rule = self.registered_rules.get(rule)\n                if registered_rule and not registered_rule.scope_types:\n                    registered_rule.scope_types = ['project']\n")], 'C12.NO-WRITE')
+silent('c12-from-copy-import', 'C12',
+       [(POL, "        self.registered_rules[default.name] = copy.deepcopy(default)", "        default_copy = copy.deepcopy(default)\n        self.registered_rules[default.name] = copy.deepcopy(default)")])
+silent('c12-local-alias', ['C12', 'C11'],
+       [(POL, "                check = default.check\n                if default.deprecated_rule:", "                reg = default\n                check = reg.check\n                if default.deprecated_rule:")])
+
+# ------------------------------------------------------------------ C20
+fire('c20-clear-then-update', 'C20',
+     [(POL, "        if overwrite:\n            self.rules = Rules(rules, self.default_rule)\n        else:",
+       "        if overwrite:\n            self.rules.clear()\n            self.rules.update(rules)\n        else:")], 'C20.PUBLISH')
+fire('c20-extra-write-site', 'C20',
+     [(POL, "            if self.policy_path:\n                # If the policy file rules have changed any policy.d rules",
+       "            if self.policy_path and force_reload:\n                self.rules.clear()\n            if self.policy_path:\n                # If the policy file rules have changed any policy.d rules")], 'C20.PUBLISH')
+fire('c20-file-rules-pop', 'C20',
+     [(POL, "            file_rule = RuleDefault(name, check_str)\n            self.file_rules[name] = file_rule",
+       "            file_rule = RuleDefault(name, check_str)\n            self.file_rules.pop(name, None)\n            self.file_rules[name] = file_rule")], 'C20.PUBLISH')
+silent('c20-comment-only', 'C20',
+       [(POL, "        self.use_conf = use_conf\n        self._need_check_rule = True\n        if overwrite:", "        self.use_conf = use_conf\n        # rebuild\n        self._need_check_rule = True\n        if overwrite:")])
